@@ -1,4 +1,4 @@
-// Package c19 decides C19: shutdown is graceful.  Real inbucket services listen on 127.0.0.1:0;
+// Package c19 decides C19: shutdown is graceful.  Real inbucket services listen on port 0 of rotating loopback addresses (sut/netx.go);
 // plain TCP clients hold 1-4 sessions open in chosen protocol states, shutdown is requested
 // (context cancel), and the harness checks that the listeners are closed, that every open
 // session can still finish (message stored and acknowledged, POP3 deletions applied), that
@@ -110,6 +110,7 @@ func run(c *fw.Ctx) {
 	c.Cases("full", c.NBatch, func(i int, r *fw.Rand) { runFull(c, i, r) })
 	c.Cases("pw", c.N(4800, 64000), func(i int, r *fw.Rand) { runPW(c, i, r) })
 	c.Cases("tlsabort", c.N(48, 600), func(i int, r *fw.Rand) { runTLSAbort(c, i, r) })
+	c.Cases("scan0", c.N(32, 480), func(i int, r *fw.Rand) { runScan0(c, i, r) })
 	if bg != nil {
 		c.Begin(bgID)
 		bg.finish(c)
@@ -255,6 +256,18 @@ func quiesce(c *fw.Ctx, base int) {
 	}
 }
 
+// portsAvailable waits until the machine can give a listener a port (see sut/netx.go); waiting
+// here takes no part in any verdict.
+func portsAvailable(c *fw.Ctx) bool {
+	l, err := sut.ListenLoopback()
+	if err != nil {
+		c.Note("no listener port available for 150 s: " + err.Error())
+		return false
+	}
+	_ = l.Close()
+	return true
+}
+
 func uniqueDomain(r *fw.Rand) string {
 	return fmt.Sprintf("c19-%d-%s.test", os.Getpid(), r.Letters(10, "abcdefghijklmnopqrstuvwxyz"))
 }
@@ -324,6 +337,10 @@ func (v storeDirect) list(mailbox string) ([]msgView, error) {
 func runPW(c *fw.Ctx, idx int, r *fw.Rand) {
 	if hangsSeen >= hangBudget {
 		c.Count("scenarios_skipped_after_hangs", 1)
+		return
+	}
+	if !portsAvailable(c) {
+		c.Inconclusive("the machine has no free port for a listener")
 		return
 	}
 	base := runtime.NumGoroutine()
